@@ -46,7 +46,7 @@ def gen_case(st, tier):
             "contexts": [{"name": "Ctx%d" % i, "h": rp.getrandbits(40)} for i in range(nctx)],
             "rps": [{"name": "r%d" % i, "h": rp.getrandbits(40), "multi": rp.random() < 0.25,
                      "ph": rp.getrandbits(40)} for i in range(nrp)],
-            "classes": [], "store_skips": rk.random() < 0.3, "debug_log": False}
+            "classes": [], "store_skips": rk.random() < 0.3, "debug_log": rk.random() < 0.25}
     for c in range(ncls):
         impls = {}
         for r in case["rps"]:
@@ -56,6 +56,14 @@ def gen_case(st, tier):
                 impls[r["name"]] = {"h": rp.getrandbits(40), "hh": rp.getrandbits(40), "bind": bind,
                                     "ctxs": sorted(rp.sample(range(nctx), k)),
                                     "out": rf.choice(OUTS), "elems": rp.choice([1, 2, 3])}
+                earlier = [cl0 for cl0 in case["classes"] if r["name"] in cl0["impls"] and cl0.get("parent") is None]
+                if earlier and rp.random() < 0.15:
+                    # an override built ON TOP of the implementation it overrides: the earlier datasource sits in the
+                    # dependency tree of the later one (optional, or member of an at-least-one group next to the
+                    # contexts).  The later one is declared for the same contexts, so it can always run there.
+                    e0 = rp.choice(earlier)
+                    impls[r["name"]].update(bind="list", ctxs=list(e0["impls"][r["name"]]["ctxs"]),
+                                            upstream={"cls": e0["name"], "form": rp.choice(["optional", "group"])})
         cl = {"name": "D%d" % c, "impls": impls, "parent": None}
         if c > 0 and rp.random() < 0.12:
             cl["parent"] = rp.randrange(c)          # derived from an implementing class, not from the declaring one
@@ -77,7 +85,7 @@ class SpecWorld(object):
         self.ev = []
         self.faults_fired = {}
 
-    def mk_ds(self, tag, h, deps, out, multi=False, elems=1):
+    def mk_ds(self, tag, h, deps, out, multi=False, elems=1, optional=None):
         ev = self.ev
         world = self
 
@@ -92,7 +100,10 @@ class SpecWorld(object):
         g = G(tag.replace(".", "_"), h)
         g._body = body
         g.tag = tag
-        plugins.datasource(*deps)(g)
+        if optional:
+            plugins.datasource(*deps, optional=list(optional))(g)
+        else:
+            plugins.datasource(*deps)(g)
         return g
 
     def define_class(self, ci):
@@ -112,7 +123,17 @@ class SpecWorld(object):
             else:
                 deps = [self.mk_ds(tag + ".helper", im["hh"], [list(cs)], "value")]
             multi = [r for r in case["rps"] if r["name"] == rn][0]["multi"]
-            ds = self.mk_ds(tag, im["h"], deps, im["out"], multi, im.get("elems", 1))
+            optional = None
+            up = im.get("upstream")
+            if up:
+                eci = [k for k, c0 in enumerate(case["classes"][:ci]) if c0["name"] == up["cls"]]
+                eds = self.impls.get((eci[0], rn)) if eci else None
+                if eds is not None:                  # (the shrinker may have removed the earlier class)
+                    if up["form"] == "optional":
+                        optional = [eds]
+                    else:
+                        deps = deps + [[eds] + list(cs)]
+            ds = self.mk_ds(tag, im["h"], deps, im["out"], multi, im.get("elems", 1), optional=optional)
             cb[rn] = ds
             self.impls[(ci, rn)] = ds
         parent = self.base
@@ -360,7 +381,9 @@ class C05(Check):
     thorough = dict(runs=8000000, wall=1500)
     rule = ("case = history of class definitions: base SpecSet with 1-3 registry points (some multi-output) + 1-5 (thorough: 7) "
             "direct sub-classes created through the real SpecSetMeta, each implementing a subset of the names by a generated "
-            "datasource bound to one context / an at-least-one list of contexts / a helper datasource bound to context(s); outcome "
+            "datasource bound to one context / an at-least-one list of contexts / a helper datasource bound to context(s) / the "
+            "same contexts as an earlier implementation that sits in its own dependency tree (optional or group member); "
+            "second-level classes; evaluations in the middle of the history; debug logging on in 25%; outcome "
             "per implementation in {value, skip, content error, failed command, crash}; one generated context active; driver in "
             "{dr.run with seeded tie-break, forced linear extension, run_incremental, run_all}; non-trivial = a spec with >= 2 "
             "implementations of which >= 1 is a candidate; distinct = digest of (event log, spec values)")
